@@ -662,6 +662,81 @@ func ruleThresholds(c *Ctx) {
 				return cc+59 <= 32767, "2·d.exp + 59 dropped digits must fit int16: C <= 32708"
 			}},
 	}
+	// early-outs of the 192-bit working arithmetic: an operand is dropped (kept as sticky only) when it lies
+	// below one unit of the other operand's 192-bit coefficient; the working precision of 57 digits is what
+	// Sqrt/Cbrt's 1e-20 ulp margin and the Pow/Log error allowances rest on
+	two192 := new(big.Float).SetPrec(300).SetInt(new(big.Int).Lsh(big.NewInt(1), 192))
+	expIf := func(op token.Token, nth int) func(p *Prog, fd *ast.FuncDecl) (int64, ast.Node, bool) {
+		return func(p *Prog, fd *ast.FuncDecl) (int64, ast.Node, bool) {
+			cnt := 0
+			var k int64
+			var node ast.Node
+			found := false
+			ast.Inspect(fd.Body, func(n ast.Node) bool {
+				ifs, isIf := n.(*ast.IfStmt)
+				if !isIf || found {
+					return true
+				}
+				x, o, kb, ok := p.normCmp(ifs.Cond)
+				if !ok || o != op || !kb.IsInt64() || kb.Sign() == 0 || (op == token.LEQ && kb.Int64() == -1) {
+					return true
+				}
+				b, isB := p.Info.TypeOf(x).Underlying().(*types.Basic)
+				if !isB || b.Kind() != types.Int16 {
+					return true
+				}
+				if cnt == nth {
+					k, node, found = kb.Int64(), ifs, true
+				}
+				cnt++
+				return true
+			})
+			return k, node, found
+		}
+	}
+	dropBelow := func(k int64) (bool, string) {
+		// x <= k drops the smaller operand: 2^192·10^k < 1
+		return mulf(two192, f10(int(k))).Cmp(big.NewFloat(1)) < 0, "a dropped operand must lie below one unit of the other's coefficient: 2^192·10^k < 1, i.e. a gap of more than 57 digits"
+	}
+	dropAbove := func(k int64) (bool, string) {
+		return f10(int(k + 1)).Cmp(two192) >= 0, "a dropped operand must lie below one unit of the other's coefficient: 10^(k+1) >= 2^192, i.e. a gap of more than 57 digits"
+	}
+	for _, fn := range []string{"decomposed192.add", "decomposed192.sub"} {
+		specs = append(specs,
+			thrSpec{fn: fn, what: "receiver dropped when `exp < -T`", props: []string{"C16", "C17", "C18"}, extract: expIf(token.LEQ, 0), admissible: dropBelow},
+			thrSpec{fn: fn, what: "argument dropped when `exp > T`", props: []string{"C16", "C17", "C18"}, extract: expIf(token.GTR, 0), admissible: dropAbove})
+	}
+	for _, fn := range []string{"decomposed192.add1", "decomposed192.sub1", "decomposed192.add1neg"} {
+		specs = append(specs,
+			thrSpec{fn: fn, what: "d dropped against 1 when `d.exp < -K`", props: []string{"C16", "C18"}, extract: expIf(token.LEQ, 0),
+				admissible: func(k int64) (bool, string) {
+					// d < 2^192·10^k must lie below one unit of 1.000…0 held with 57 digits after the point
+					return mulf(two192, f10(int(k))).Cmp(f10(-57)) < 0, "2^192·10^k < 10^-57: d is below one unit of a 58-digit 1.00…0"
+				}},
+			thrSpec{fn: fn, what: "1 dropped against d when `d.exp > B`", props: []string{"C16", "C18"}, extract: expIf(token.GTR, 0), admissible: dropAbove})
+	}
+	specs = append(specs, thrSpec{fn: "decomposed192.powexp10", what: "overflow exit before the last product `d.exp + r.exp > C`", props: []string{"C18", "C16"},
+		extract: func(p *Prog, fd *ast.FuncDecl) (int64, ast.Node, bool) {
+			var k int64
+			var node ast.Node
+			ok := false
+			ast.Inspect(fd.Body, func(n ast.Node) bool {
+				if ifs, isIf := n.(*ast.IfStmt); isIf && !ok {
+					if be, isB := ast.Unparen(ifs.Cond).(*ast.BinaryExpr); isB && be.Op == token.GTR {
+						if m, isM := ast.Unparen(be.X).(*ast.BinaryExpr); isM && m.Op == token.ADD && strings.Contains(p.exprStr(m.X), ".exp") && strings.Contains(p.exprStr(m.Y), ".exp") {
+							if v, isC := p.constInt64(be.Y); isC {
+								k, node, ok = v, ifs, true
+							}
+						}
+					}
+				}
+				return true
+			})
+			return k, node, ok
+		},
+		admissible: func(cc int64) (bool, string) {
+			return cc+59 <= 32767, "d.exp + r.exp + 59 digits moved into the exponent by mul must fit int16: C <= 32708"
+		}})
 	for _, s := range specs {
 		fd := c.fn(s.fn)
 		if fd == nil {
